@@ -380,7 +380,9 @@ func carrierAxioms() (axioms map[string]string, lemmas map[string]string) {
 			lit := bvLit(uint64(c), 64)
 			cs = append(cs, fmt.Sprintf("(= (<= n %s) (bvsle (i2bv64 n) %s)) (= (>= n %s) (bvsge (i2bv64 n) %s))", intLit(c), lit, intLit(c), lit))
 		}
-		cs = append(cs, "(= (i2bv64 (- n)) (bvneg (i2bv64 n)))")
+		// negation commutes with the bridge except at the most negative value (bvneg fixes it, so
+		// an unguarded clause contradicts the sign facts above: found by z3 4.8.12, DESIGN E12)
+		cs = append(cs, "(=> (not (= (i2bv64 n) #x8000000000000000)) (= (i2bv64 (- n)) (bvneg (i2bv64 n))))")
 		axioms["BRIDGE_ORD"] = "(forall ((n Int)) (! (and " + strings.Join(cs, " ") + ") :pattern ((i2bv64 n))))"
 	}
 	// gc/amd64 behaviour of the implementation-defined out-of-range float->uint32 conversion
